@@ -158,6 +158,20 @@ def to_impl_live(s, salt):
     import zlib
     from geostructures import Coordinate, GeoBox, GeoPolygon
     obj = to_impl(s)
+    crc = zlib.crc32(salt.encode())
+    if s.kind == 'line' and len(s.pts) >= 3 and crc % 2 == 0:
+        # a path that is *grown*: built from a prefix, looked at, then extended vertex by vertex through its public
+        # `vertices` list — whatever was derived from the shorter path must not survive (seeded change C02-q1 cached
+        # `segments`).  `bounds`/`centroid` are cached by the unchanged library and are not read here.
+        from geostructures import GeoLineString
+        keep = 2 + (crc // 2) % (len(s.pts) - 2)
+        obj = GeoLineString([Coordinate(float(p[0]), float(p[1])) for p in s.pts[:keep]], dt=mk_dt(s.dt))
+        _ = obj.segments
+        obj.intersects_shape(obj)
+        obj.contains_shape(obj)
+        for p in s.pts[keep:]:
+            obj.vertices.append(Coordinate(float(p[0]), float(p[1])))
+        return obj, (lambda: 'nothing')
     if s.kind not in ('poly', 'box'):
         return obj, (lambda: 'nothing')
 
@@ -176,9 +190,36 @@ def to_impl_live(s, salt):
     # a hole swallowing the whole shape: if it ever becomes one of the shape's holes, every answer flips
     big = GeoPolygon([Coordinate(min(xs) - w, min(ys) - h), Coordinate(max(xs) + w, min(ys) - h),
                       Coordinate(max(xs) + w, max(ys) + h), Coordinate(min(xs) - w, max(ys) + h)])
-    pick = zlib.crc32(salt.encode()) % 6
+    pick = crc % 6
+    warm = (crc // 6) % 3 == 0
+
+    def look_around():
+        """read-only observers between two identical questions: anything they cache or build (a shapely geometry, bounds,
+        rings, text) must not change what the shape answers (seeded change C01-q3 switched to GEOS once `to_shapely()`
+        had been called)"""
+        for f in ('to_shapely', 'bounding_coords', 'edges', 'linear_rings', 'to_wkt', 'to_geojson', 'circumscribing_rectangle',
+                  'copy', 'to_polygon'):
+            try:
+                getattr(obj, f)()
+            except Exception:  # noqa  (an observer that raises is another property's business)
+                pass
+        for a in ('area', 'bounds', 'centroid', 'has_z', 'properties'):
+            try:
+                getattr(obj, a)
+            except Exception:  # noqa
+                pass
+        try:
+            hash(obj), repr(obj), obj == obj
+        except Exception:  # noqa
+            pass
 
     def disturb():
+        if warm:
+            look_around()
+            return 'read-only observers (to_shapely, area, bounds, to_wkt, …)' + ' + ' + _disturb()
+        return _disturb()
+
+    def _disturb():
         if pick == 0:
             mine.clear()
             return 'caller cleared its holes list'
